@@ -232,7 +232,7 @@ func (r *persistRunner) Exec(line string) string {
 		if reached {
 			select {
 			case err = <-done:
-			case <-time.After(20 * time.Second):
+			case <-time.After(flushSlack()):
 				return "err:put-during-timer-flush-never-returned"
 			}
 			r.tag("put-in-timer-window")
